@@ -334,7 +334,9 @@ added, keyed on the assertion text), and C01 chacha/32 on the random near-switch
 1.0000002) — a genuine defect (catastrophic cancellation in algorithm BB's
 set-up when both parameters are just above 1, f64 included), repaired by fix
 6c1c91b; asymmetric near-1 pairs were added to the Beta grid and re-find it on
-the pre-fix source in both float types.
+the pre-fix source in both float types. A fourth run (seeds 41–44 × three
+generators × 15 checks = 180 runs, binary of the state after round 5) printed
+no VIOLATION at all.
 
 {appe}
 ## Status / next steps (for a later session)
